@@ -1,4 +1,4 @@
-import Marwood.Lemmas.PrepareDefs
+import Marwood.Lemmas.PrepareEnvCode
 import Marwood.Lemmas.NoPanicDefs
 /-!
 # The allocator steps of `prepare_eval` keep the no-panic clauses of the heap
@@ -22,35 +22,35 @@ theorem NewCellOk.all {P : CCell → Prop} (q : QFree P) (hv : ∀ es, P (.vecto
   | vector es => exact hv es
   | lambda hq => exact hl _ hq
 
-theorem instStep_allCells {P : CCell → Prop} (q : QFree P) (hv : ∀ es, P (.vector es)) {Q : CLambda → Prop}
-    (hl : ∀ cl, Q cl → P (.lambda cl)) {h h' : CHeap} (st : InstStep Q h h') (a : AllCells P h) : AllCells P h' := by
+theorem instStep_allCells {P : CCell → Prop} (q : QFree P) (hv : ∀ es, P (.vector es)) {Q : CHeap → CLambda → Prop}
+    (hl : ∀ h cl, Q h cl → P (.lambda cl)) {h h' : CHeap} (st : InstStep Q h h') (a : AllCells P h) : AllCells P h' := by
   cases st with
-  | cell hn _ _ => exact cput_all q a (hn.all q hv hl)
+  | cell hn _ _ _ => exact cput_all q a (hn.all q hv (hl _))
   | sym _ _ => exact putNew_all q a _
   | glob _ => exact a.of_cells rfl
   | resym _ _ => exact a.of_cells rfl
 
-theorem instSteps_allCells {P : CCell → Prop} (q : QFree P) (hv : ∀ es, P (.vector es)) {Q : CLambda → Prop}
-    (hl : ∀ cl, Q cl → P (.lambda cl)) {h h' : CHeap} (st : InstSteps Q h h') (a : AllCells P h) : AllCells P h' := by
+theorem instSteps_allCells {P : CCell → Prop} (q : QFree P) (hv : ∀ es, P (.vector es)) {Q : CHeap → CLambda → Prop}
+    (hl : ∀ h cl, Q h cl → P (.lambda cl)) {h h' : CHeap} (st : InstSteps Q h h') (a : AllCells P h) : AllCells P h' := by
   induction st with
   | refl _ => exact a
   | step s _ ih => exact ih (instStep_allCells q hv hl s a)
 
-theorem instSteps_heapNP {Q : CLambda → Prop} (hQ : ∀ cl, Q cl → CodeOk cl) {h h' : CHeap} (st : InstSteps Q h h')
+theorem instSteps_heapNP {Q : CHeap → CLambda → Prop} (hQ : ∀ h cl, Q h cl → CodeOk cl) {h h' : CHeap} (st : InstSteps Q h h')
     (a : HeapNP h) : HeapNP h' :=
   instSteps_allCells lamQ_free (fun _ _ e => by cases e)
-    (fun cl hq l e => by cases e; exact (hQ _ hq).np.lamNP) st a
+    (fun _ cl hq l e => by cases e; exact (hQ _ _ hq).np.lamNP) st a
 
-theorem instSteps_contBound {Q : CLambda → Prop} {n : Nat} {h h' : CHeap} (st : InstSteps Q h h')
+theorem instSteps_contBound {Q : CHeap → CLambda → Prop} {n : Nat} {h h' : CHeap} (st : InstSteps Q h h')
     (a : ContBound n h) : ContBound n h' :=
-  instSteps_allCells (contQ_free n) (fun _ _ e => by cases e) (fun _ _ _ e => by cases e) st a
+  instSteps_allCells (contQ_free n) (fun _ _ e => by cases e) (fun _ _ _ _ e => by cases e) st a
 
 /-! ## the two no-panic clauses `NPInv` across `prepare_eval` -/
 
 /-- loader steps (of an accepted or of a rejected form) keep `NPInv`: new code objects satisfy `LamNP`, no continuation
     cell is created, the stack — hence its capacity — is unchanged -/
 theorem npinv_installsGarbage {s s' : St CHeap} (i : NPInv s) (st : InstallsGarbage s s') : NPInv s' := by
-  refine ⟨instSteps_heapNP (fun _ q => q) st.steps i.lam, ?_⟩
+  refine ⟨instSteps_heapNP (fun _ _ q => q.code) st.steps i.lam, ?_⟩
   have hst : s'.stack = s.stack := by rw [st.regs]
   show ContBound s'.stack.cells.length s'.heap
   rw [hst]
